@@ -197,50 +197,7 @@ def run(ctx: Ctx, rep: Report) -> None:
     ]
     wm = WalkModel(ctx)
     rep.analysed.update({"walk": wm.walk.key, "bulk_fetcher": wm.bulk_fetcher.key})
-    client = wm.client
-    # ---------------------------------------------------------------- R0
-    bulkwalk = None
-    for meth in client.methods.values():
-        for n in own_nodes(meth.node):
-            if isinstance(n, ast.Call) and wm.walk in [c for c in ctx.r.callees(meth, n) if isinstance(c, FuncInfo)]:
-                b = bind_call_args(n, wm.walk.params)
-                if isinstance(b.get(wm.fetch_param), ast.Call):
-                    bulkwalk = (meth, n, b)
-    if bulkwalk is None:
-        raise AnalysisError("no method hands a bulk fetcher to the walk loop")
-    meth, call, b = bulkwalk
-    roots_ok = isinstance(b.get(wm.roots_param), ast.Name) and b[wm.roots_param].id == meth.params[1] and not ctx.defs(meth).all_values(meth.params[1])
-    fac_call = b[wm.fetch_param]
-    fac_arg_ok = len(fac_call.args) == 1 and norm(fac_call.args[0]) == "bulk_size" and "bulk_size" in meth.params
-    rep.check(roots_ok and fac_arg_ok, "C02-R0", meth.site(call), f"{meth.name}: walks the caller's roots with a fetcher built from the caller's bulk size", f"{norm(call)[:90]}", key=f"{meth.key}|delegation")
-    loops = [n for n in own_nodes(meth.node) if isinstance(n, ast.AsyncFor)]
-    ok = False
-    if len(loops) == 1:
-        loop = loops[0]
-        src = loop.iter
-        if isinstance(src, ast.Name):
-            src = ctx.defs(meth).single(src.id) or src
-        body = loop.body
-        if src is call and len(body) == 1 and isinstance(body[0], ast.Expr) and isinstance(body[0].value, ast.Yield):
-            y = body[0].value.value
-            tn = [norm(t) for t in (loop.target.elts if isinstance(loop.target, ast.Tuple) else [loop.target])]
-            ok = norm(y) in (tn[0], f"VarBind({', '.join(tn)})") if y is not None else False
-    rep.check(ok, "C02-R0", meth.site(), f"{meth.name}: yields every item of the shared walk unchanged (field-wise rebuild allowed)", key=f"{meth.key}|yields-all")
-
-    # ---------------------------------------------------------------- R1
-    cont = Containers(ctx, client)
-    positional = True  # C01-R4 instance exists (checked there)
-    for f in wm.fetchers():
-        kind, why = cont.returned(f)
-        rep.check(
-            kind == FAITHFUL,
-            "C02-R1",
-            f.site(),
-            f"{f.qualname}: the returned list derives faithfully from the response's binding list",
-            f"container kind: {kind}" + (f" - {why}" if why else ""),
-            key=f"{f.key}|container-{kind}",
-        )
-
+    check_bulk_fetch(ctx, rep, wm)
     check_bulk_builder(ctx, rep, wm, "C02-R2", "C02-R3")
 
     # ---------------------------------------------------------------- R5: the shared loop (C01 R1-R8 with the bulk fetcher in the fetcher set)
@@ -254,12 +211,67 @@ def run(ctx: Ctx, rep: Report) -> None:
     c01.check_unfinished(ctx, sub, wm)
     c01.check_markers(ctx, sub, wm)
     c01.check_order(ctx, sub, wm)
+    c01.check_end_signals(ctx, sub, wm)
     rep.adopt(sub, "C02-R5")
+
+
+def check_bulk_fetch(ctx: Ctx, rep: Report, wm: WalkModel, r0: str = "C02-R0", r1: str = "C02-R1", r4: str = "C02-R4") -> None:
+    """Delegation of the bulk walk to the shared loop (r0), faithfulness of every fetcher's result (r1), suffix cut at the marker (r4)."""
+    client = wm.client
+    # ---------------------------------------------------------------- R0
+    bulkwalk = None
+    for meth in client.methods.values():
+        for n in own_nodes(meth.node):
+            if isinstance(n, ast.Call) and wm.walk in [c for c in ctx.r.callees(meth, n) if isinstance(c, FuncInfo)]:
+                b = bind_call_args(n, wm.walk.params)
+                if isinstance(b.get(wm.fetch_param), ast.Call):
+                    bulkwalk = (meth, n, b)
+    if bulkwalk is None:
+        raise AnalysisError("no method hands a bulk fetcher to the walk loop")
+    meth, call, b = bulkwalk
+    from .c01 import is_order_preserving_of
+
+    mdefs = ctx.defs(meth)
+    roots_arg = b.get(wm.roots_param)
+    # the caller's roots, possibly through list()/tuple()/sorted() copies (the walk sorts them itself); the
+    # parameter may only be re-bound to such a copy of itself
+    rebinds = mdefs.all_values(meth.params[1])
+    roots_ok = roots_arg is not None and is_order_preserving_of(mdefs.expand(roots_arg, stop=[meth.params[1]]), meth.params[1]) and all(is_order_preserving_of(v, meth.params[1]) for v in rebinds)
+    fac_call = b[wm.fetch_param]
+    fac_arg_ok = len(fac_call.args) == 1 and norm(fac_call.args[0]) == "bulk_size" and "bulk_size" in meth.params
+    rep.check(roots_ok and fac_arg_ok, r0, meth.site(call), f"{meth.name}: walks the caller's roots with a fetcher built from the caller's bulk size", f"{norm(call)[:90]}", key=f"{meth.key}|delegation")
+    loops = [n for n in own_nodes(meth.node) if isinstance(n, ast.AsyncFor)]
+    ok = False
+    if len(loops) == 1:
+        loop = loops[0]
+        src = loop.iter
+        if isinstance(src, ast.Name):
+            src = ctx.defs(meth).single(src.id) or src
+        body = loop.body
+        if src is call and len(body) == 1 and isinstance(body[0], ast.Expr) and isinstance(body[0].value, ast.Yield):
+            y = body[0].value.value
+            tn = [norm(t) for t in (loop.target.elts if isinstance(loop.target, ast.Tuple) else [loop.target])]
+            ok = norm(y) in (tn[0], f"VarBind({', '.join(tn)})") if y is not None else False
+    rep.check(ok, r0, meth.site(), f"{meth.name}: yields every item of the shared walk unchanged (field-wise rebuild allowed)", key=f"{meth.key}|yields-all")
+
+    # ---------------------------------------------------------------- R1
+    cont = Containers(ctx, client)
+    positional = True  # C01-R4 instance exists (checked there)
+    for f in wm.fetchers():
+        kind, why = cont.returned(f)
+        rep.check(
+            kind == FAITHFUL,
+            r1,
+            f.site(),
+            f"{f.qualname}: the returned list derives faithfully from the response's binding list",
+            f"container kind: {kind}" + (f" - {why}" if why else ""),
+            key=f"{f.key}|container-{kind}",
+        )
 
     # ---------------------------------------------------------------- R4
     cuts = wm.truncation(wm.bulk_fetcher)
     kinds = sorted({k for _, _, k in cuts})
-    rep.check(bool(cuts) and all(k in ("break", "return") for k in kinds), "C02-R4", wm.bulk_fetcher.site(), "at an endOfMibView binding the result loop is left (suffix cut); bindings are never skipped individually", f"cut kinds: {kinds}", key=f"{wm.bulk_fetcher.key}|marker-continue")
+    rep.check(bool(cuts) and all(k in ("break", "return") for k in kinds), r4, wm.bulk_fetcher.site(), "at an endOfMibView binding the result loop is left (suffix cut); bindings are never skipped individually", f"cut kinds: {kinds}", key=f"{wm.bulk_fetcher.key}|marker-continue")
 
 
 def check_bulk_builder(ctx: Ctx, rep: Report, wm: WalkModel, r2: str, r3: str) -> None:
